@@ -61,17 +61,30 @@ Sound == \A bits \in 1..MaxBits, base \in 2..3, v \in 0..(P - 1) : Accepts(v, bi
 
 (* ---- behaviours for the replay on the real gadget ------------------------ *)
 Mixes == << <<5>>, <<8>>, <<7, 13, 3>>, <<1>>, <<16, 16, 16, 16>>, <<30>>, <<6, 6, 6>>, <<64, 64, 3>> >>
+\* one variable checked several times, at different widths: every check binds (the narrowest decides)
+SameMixes == << <<16, 8>>, <<8, 16>>, <<5, 3>>, <<3, 64>>, <<8, 8>> >>
 Classes == {"honest-in", "honest-max", "honest-out", "limb-overflow", "limb-shift", "bad-multiplicity"}
+SameClasses == {"honest-in", "honest-max", "honest-out", "honest-between"}
 Expected(c) == IF c \in {"honest-in", "honest-max"} THEN "accept" ELSE "reject"
+MinOf(mix) == CHOOSE w \in {mix[k] : k \in 1..Len(mix)} : \A k \in 1..Len(mix) : w <= mix[k]
+MaxOf(mix) == CHOOSE w \in {mix[k] : k \in 1..Len(mix)} : \A k \in 1..Len(mix) : w >= mix[k]
 
-VARIABLES builder, m, i, cls, done
-vars == <<builder, m, i, cls, done>>
-Init == builder \in {"r1cs", "scs"} /\ m \in 1..Len(Mixes) /\ i \in 1..3 /\ i <= Len(Mixes[m]) /\ cls \in Classes /\ done = FALSE
-Finish == ~done /\ done' = TRUE /\ UNCHANGED <<builder, m, i, cls>>
-          /\ (IF Emit THEN LET mix == Mixes[m] base == OptimalWidth(builder, mix) IN
-                PrintT("BEH" \o ToJson([builder |-> builder, mix |-> mix, var |-> i, class |-> cls, expected |-> Expected(cls),
+VARIABLES builder, mode, m, i, cls, done
+vars == <<builder, mode, m, i, cls, done>>
+Init == /\ builder \in {"r1cs", "scs"} /\ done = FALSE
+        /\ \/ mode = "mix" /\ m \in 1..Len(Mixes) /\ i \in 1..3 /\ i <= Len(Mixes[m]) /\ cls \in Classes
+           \/ mode = "same" /\ m \in 1..Len(SameMixes) /\ i = 1 /\ cls \in SameClasses
+                /\ (cls = "honest-between" => MinOf(SameMixes[m]) < MaxOf(SameMixes[m]))
+Finish == ~done /\ done' = TRUE /\ UNCHANGED <<builder, mode, m, i, cls>>
+          /\ (IF ~Emit THEN TRUE
+              ELSE IF mode = "mix" THEN LET mix == Mixes[m] base == OptimalWidth(builder, mix) IN
+                PrintT("BEH" \o ToJson([builder |-> builder, mode |-> mode, mix |-> mix, var |-> i, class |-> cls, expected |-> Expected(cls),
                                         base |-> base, nbLimbs |-> DecompSize(mix[i], base),
-                                        shift |-> DecompSize(mix[i], base) * base - mix[i]])) ELSE TRUE)
+                                        shift |-> DecompSize(mix[i], base) * base - mix[i]]))
+              ELSE LET mix == SameMixes[m] IN
+                \* value classes are relative to the narrowest width: 1, 2^min - 1, 2^min, 2^max - 1
+                PrintT("BEH" \o ToJson([builder |-> builder, mode |-> mode, mix |-> mix, var |-> 1, class |-> cls, expected |-> Expected(cls),
+                                        base |-> 0, nbLimbs |-> 0, shift |-> 0, min |-> MinOf(mix), max |-> MaxOf(mix)])))
 Next == Finish
 Spec == Init /\ [][Next]_vars
 SoundInv == Sound
